@@ -251,12 +251,29 @@ const preamble2 = `(declare-fun unbox (Int) Int)
 `
 
 // queryText assembles the SMT-LIB text of one obligation.
-func (e *Engine) queryText(o *Obligation) string {
+func (e *Engine) queryText(o *Obligation) string { return e.queryTextVariant(o, "z3") }
+
+// variantLine selects a script line for a back-end family ("z3" or "gen").
+func variantLine(ln, variant string) (string, bool) {
+	if strings.HasPrefix(ln, "#z3# ") {
+		return ln[5:], variant == "z3"
+	}
+	if strings.HasPrefix(ln, "#gen# ") {
+		return ln[6:], variant == "gen"
+	}
+	return ln, true
+}
+
+func (e *Engine) queryTextVariant(o *Obligation, variant string) string {
 	c := o.ctx
 	var b strings.Builder
 	b.WriteString(e.header(c))
 	for _, ln := range c.script[:o.Prefix] {
-		b.WriteString(ln)
+		l, ok := variantLine(ln, variant)
+		if !ok {
+			continue
+		}
+		b.WriteString(l)
 		b.WriteString("\n")
 	}
 	b.WriteString("(assert (not " + o.Goal + "))\n(check-sat)\n(get-model)\n")
@@ -319,7 +336,11 @@ func (e *Engine) batch(c *FnCtx, workDir string, idx int) {
 	}
 	for i, ln := range c.script {
 		flush(i)
-		b.WriteString(ln)
+		l, ok := variantLine(ln, "z3")
+		if !ok {
+			continue
+		}
+		b.WriteString(l)
 		b.WriteString("\n")
 	}
 	flush(len(c.script))
@@ -384,6 +405,9 @@ func (e *Engine) discharge(obls []*Obligation, workDir string, timeoutS int, all
 			if err != nil {
 				o.Result = &solverResult{Status: "error", Output: err.Error()}
 				return
+			}
+			if gen := e.queryTextVariant(o, "gen"); gen != txt {
+				writeQuery(workDir, name+".gen", gen)
 			}
 			to := timeoutS
 			if (o.Canary || o.Cover) && to > 4 {
